@@ -12,10 +12,17 @@ PROP = dict(
          "pool, parameters, input); non-trivial = at least 3 elements and 2 parts",
     class_names={0: "vnbest", 1: "vnfirst", 2: "kmeans2", 3: "kmeans3", 4: "fm", 5: "kl", 6: "arcswap"},
     trusted_base=[
-        "axioms: none",
+        "axioms: none (every theorem of Properties/C02.v is closed under the global context)",
         "KMeans: only an ABSTRACT model (the numeric core is an oracle); its arithmetic is not verified",
-        "the per-algorithm theorems for VnBest/VnFirst/FM/KL/ArcSwap are about the models of C14/C07/C15/C05 and are tied to the code by "
-        "those checks; this check itself runs the implementation only (panic / hang / length / id bound)",
+        "the per-algorithm theorems for VnBest/VnFirst/FM/KL/ArcSwap are about the models of C14/C07/C15/C05 (KL at the flags of "
+        "Gen/KlGen.v) and are tied to the code by those checks; this check itself runs the implementation only (panic / hang / "
+        "length / id bound)",
+        "ArcSwap: sequential consistency of the atomics (the interleaving semantics of Model/ArcSwap.v) is assumed; no-panic / "
+        "termination are proved for the exact per-thread share (headroom_quot), which the f64 share of the code equals only "
+        "where C05's headroom_checked accepts it; integer i64 weights",
+        "FM: every theorem quantifies over all oracles (iteration order of the gain buckets); the weight cap must convert to i64",
+        "NOT proved: KernighanLin on three or more part ids (the code reaches unimplemented!: open known finding, the theorem "
+        "C02_kl_two_parts_partial covers at most two ids); ArcSwap on a one-part input is only bounded by id <= 1",
         "the harness generates valid input partitions (every id from 0 to the maximum used) and computes the id bound",
         "hang = no answer within the 90 s watchdog",
     ],
@@ -27,12 +34,19 @@ PROP = dict(
 )
 
 MANIFEST = dict(
-    text="Validity theorems per improving algorithm, proved about the Gallina models (collected in Properties/C02.v; k-means only "
-         "through an abstract model whose numeric core is an arbitrary oracle: for EVERY oracle the output keeps its length and uses "
-         "only ids of the input), plus a run of all six algorithms on valid partitions under six pool sizes with overflow checks and "
-         "debug assertions on, every output judged by the exact validity checker; panics and hangs are violations. KernighanLin on more "
-         "than two parts is a known finding (unimplemented!).",
+    text="One theorem per improving algorithm, about that algorithm's Gallina model, collected in Properties/C02.v from C14, C07, "
+         "C15, C05 (glue in Proofs/C02Collect.v): under the contract the model returns Ok (no panic, no fuel exhaustion), the "
+         "array keeps its length and no id exceeds the input's maximum -- VnBest, VnFirst (full), FiducciaMattheyses (every "
+         "bucket-order oracle: no panic, terminates within initial cut + 2 passes, completed runs stay in {0,1}; an accepted "
+         "oracle exists), KernighanLin (PARTIAL: at most two part ids; labels only permuted), ArcSwap (every reachable state "
+         "under every schedule: length kept, ids below part_count; PARTIAL no-panic / no-deadlock / well-founded stepping / "
+         "completion for the exact share, sequential consistency assumed); k-means only through an abstract model whose "
+         "numeric core is an arbitrary oracle (for EVERY oracle the output keeps its length and uses only ids of the input). "
+         "Plus a run of all six algorithms on valid partitions under six pool sizes with overflow checks and debug assertions "
+         "on, every output judged by the exact validity checker; panics and hangs are violations. KernighanLin on more than "
+         "two parts is a known finding (unimplemented!).",
     design_ref="DESIGN.md §7 C02",
-    note="PARTIAL for KMeans (oracle model). This check does not evaluate a model per case; the models are compared in C05/C07/C14/C15.",
+    note="PARTIAL for KMeans (oracle model), KernighanLin (two part ids) and ArcSwap's no-hang clause (exact share, SC). This "
+         "check does not evaluate a model per case; the models are compared in C05/C07/C14/C15.",
     technique="Coq proof (per-algorithm validity theorems; abstract oracle model for k-means) + certified validity checker on implementation runs",
 )
